@@ -79,6 +79,7 @@ def extract(root='/repo', std='c++14', scratch=None, extra_tus=()):
         prog.inlined = normalise.inline_local_helpers(prog)
         prog.range_loops = normalise.canonical_range_for(prog)
         prog.aliases = normalise.resolve_reference_aliases(prog)
+        prog.returns_canon = normalise.canonical_returns(prog)
         pn = os.path.join(os.path.dirname(os.path.abspath(__file__)), 'param_names.json')
         prog.renamed_params = normalise.canonical_param_names(prog, json.load(open(pn))) if os.path.exists(pn) else 0
         return prog
@@ -163,12 +164,13 @@ class Program:
     def by_sig(self, sig):
         return self.functions.get(sig)
 
-    def all_functions(self, include_patterns=False):
-        return [f for k, f in self.functions.items() if include_patterns or not f.is_pattern]
+    def all_functions(self, include_patterns=False, include_folded=True):
+        return [f for k, f in self.functions.items() if (include_patterns or not f.is_pattern) and (include_folded or not f.d.get('folded'))]
 
     def repo_functions(self):
-        """Functions whose definition lives under root (not the verif instantiation TU)."""
-        return [f for f in self.all_functions() if f.file.startswith(self.root)]
+        """Functions whose definition lives under root (not the verif instantiation TU); file-local helpers that were
+        folded into all their callers are not listed (their code is analysed where it is used)."""
+        return [f for f in self.all_functions(include_folded=False) if f.file.startswith(self.root)]
 
     def rel(self, path):
         return os.path.relpath(path, self.root) if path.startswith(self.root) else path
